@@ -179,3 +179,26 @@ Example C02_example :
   | _ => False
   end.
 Proof. vm_compute. repeat split. Qed.
+
+(** ** the standard input (AllowStdin): with no paths it is the only input and
+    is labelled "-"; otherwise the label rule above applies to the paths, "-"
+    among them *)
+Theorem C02_labels_rule_stdin : forall allow_labels paths,
+  files_inputs allow_labels (stdin_paths paths) = spec_inputs_stdin allow_labels paths.
+Proof. exact labels_rule_stdin. Qed.
+Print Assumptions C02_labels_rule_stdin.
+
+Theorem C02_files_run_stdin_inputs : forall is_space is_lower is_upper atoi parse_float fs allow_labels paths stdin,
+  files_run_stdin is_space is_lower is_upper atoi parse_float fs allow_labels paths stdin =
+  files_loop is_space is_lower is_upper atoi parse_float (with_stdin stdin fs)
+             (spec_inputs_stdin allow_labels paths) rs_empty.
+Proof. exact files_run_stdin_inputs. Qed.
+Print Assumptions C02_files_run_stdin_inputs.
+
+(** the code before fix "count the implicit stdin input" (defect found in
+    round 4): the only input was labelled "-#0" *)
+Theorem C02_stdin_label_old_refuted :
+  files_inputs_nopaths_old = [mkFinput dash (bs "-#0") false] /\
+  spec_inputs_stdin true [] = [mkFinput dash (bs "-") false].
+Proof. exact stdin_label_old_refuted. Qed.
+Print Assumptions C02_stdin_label_old_refuted.
